@@ -103,6 +103,11 @@ namespace xv
                 }
             }
         }
+        else if (key == "bin_s")
+        {
+            Alpha S = value_alpha(t, T, true);
+            out.push_back(mk("Ls^2 x lanes", { S, S }, ML));
+        }
         else if (key == "ter")
         {
             Alpha S = value_alpha(t, T, true);
